@@ -111,6 +111,9 @@ impl PatProp for DiffRef {
         let re = match engine::build(pat) {
             Built::Ok(r) => r,
             Built::Err(e) => {
+                if engine::err_kind(&e) == "LookBehindNotConst" && n.any(|x| matches!(x, Look(_, true, _))) && n.all_lookbehinds_syntactically_fixed() && !n.any(|x| matches!(x, SetFlags(..))) {
+                    return Prep::Fail(Fail::new("lookbehind-wrongly-rejected", "the pattern compiles: every look-behind alternative has a fixed length in characters by its syntax alone", "Err(LookBehindNotConst)"));
+                }
                 return Prep::Skip(match engine::err_kind(&e).as_str() {
                     "LookBehindNotConst" => "compile:LookBehindNotConst",
                     k if k.starts_with("ParseError") => "compile:ParseError",
